@@ -9,14 +9,17 @@ in `Lemmas.Http.foldCalls_spec` / `foldl_stepName`), with header names / values 
 Outside the documented domain (a header name or value that is not ASCII) the builders panic; the property does not
 constrain that case (`inDomain`).
 
-One defect of the pinned tree is visible here (key `stale-content-type`): when no content type is set explicitly and a
+Two defects of the pinned tree are visible here.  `stale-content-type`: when no content type is set explicitly and a
 body is replaced by a body of another kind, the request carries the content type of the *first* body
-(`copy_content_type_from_body` only fills a gap).  Hence the full statement `C14_full` is false (`C14_full_false`);
-`C14_sound_partial` is the strongest true restriction and `stale_content_type_exact` pins the defect.
+(`copy_content_type_from_body` only fills a gap).  `unknown-length-body-dropped`: a body handed over as a reader of
+unknown length (`body(Body::from_reader(r, None))`) is not sent at all (`is_empty() == Some(false)` is false for `None`).
+Hence the full statement `C14_full` is false (`C14_full_false`, `C14_full_false_dropped`); `C14_sound_partial` is the
+strongest true restriction and `stale_content_type_exact` / `unknown_length_body_dropped_exact` pin the defects.
 -/
 import CruxVerif.Lemmas.Http
 namespace Props.C14
 open M.Http S.Http Lemmas.Http
+set_option linter.unusedSimpArgs false
 
 /-- What the code makes of header `k` (lower-case name): the last explicit setting; otherwise, for `content-type`,
     the MIME of the *first* body set; otherwise nothing. -/
@@ -25,15 +28,24 @@ def modelValues (calls : List Call) (k : Bytes) : List Bytes :=
   | some vs => vs
   | none => if k = ctName then (match firstBody calls with | some (k1, _) => [k1.mime] | none => []) else []
 
+/-- The body bytes the code sends: those of the last body call — unless that call handed over a reader of unknown
+    length, in which case nothing is sent. -/
+def modelBody (calls : List Call) : Bytes := if lastBodyIsReader calls then [] else expectedBody calls
+
 /-- Closed form of `buildRequest` inside the domain (ASCII header names and values). -/
 theorem buildRequest_closed (c : ReqCase) (hd : inDomain c.calls = true) :
-    ∃ hs, buildRequest c = .req 1 (upper c.method) (expectedUrl c) hs (expectedBody c.calls) ∧
+    ∃ hs, buildRequest c = .req 1 (upper c.method) (expectedUrl c) hs (modelBody c.calls) ∧
       ∀ k, valuesFor hs k = modelValues c.calls k := by
   obtain ⟨r, hr⟩ := foldCalls_some_of_inDomain c.calls
-    { method := upper c.method, url := c.url, headers := [], body := [] } hd
-  obtain ⟨hm, hu, hb, hk, he⟩ := foldCalls_spec c.calls _ r hr
+    { method := upper c.method, url := c.url, headers := [], body := [], lenKnown := true } hd
+  obtain ⟨hm, hu, hb, hlk, hk, he⟩ := foldCalls_spec c.calls _ r hr
   have hkl : KeysLower r.headers := hk (by intro e he; cases he)
-  simp only at hm hu hb
+  simp only at hm hu hb hlk
+  have hlen : r.lenKnown = !lastBodyIsReader c.calls := by
+    rw [hlk]
+    cases hl : lastBody c.calls with
+    | none => simp [lastBodyIsReader_of_none _ hl]
+    | some x => rfl
   -- entries of the folded request
   have hent : ∀ n, entry r.headers n =
       match lastExplicit n c.calls with
@@ -42,39 +54,47 @@ theorem buildRequest_closed (c : ReqCase) (hd : inDomain c.calls = true) :
     intro n
     rw [he n, foldl_stepName, entry_nil]
     cases lastExplicit n c.calls <;> rfl
-  -- `into_protocol_request` adds nothing: a non-empty body implies a content-type entry
-  have hproto : (intoProtocol r).headers = r.headers ∧ (intoProtocol r).body = r.body ∧
+  -- a non-empty body implies a content-type entry
+  have hct : r.body.isEmpty = false → r.headers.contains ctName = true := by
+    intro hbe
+    have h1 := hent ctName
+    unfold entry at h1
+    by_cases hc : r.headers.contains ctName = true
+    · exact hc
+    · exfalso
+      simp only [hc, Bool.false_eq_true, if_false] at h1
+      cases hl : lastExplicit ctName c.calls with
+      | some vs => simp [hl] at h1
+      | none =>
+        simp only [hl, if_true, firstMime] at h1
+        have hf : firstBody c.calls = none := by
+          cases hfb : firstBody c.calls <;> simp [hfb] at h1 <;> rfl
+        have hlb : lastBody c.calls = none := (lastBody_none_iff _).mpr hf
+        rw [hb, hlb] at hbe
+        simp at hbe
+  -- `into_protocol_request` adds no header; it sends the body iff its length is known
+  have hproto : (intoProtocol r).headers = r.headers ∧
+      (intoProtocol r).body = (if r.lenKnown then r.body else []) ∧
       (intoProtocol r).url = r.url ∧ (intoProtocol r).method = r.method := by
     unfold intoProtocol
-    by_cases hbe : r.body.isEmpty = true
-    · simp [hbe]
-    · simp only [hbe, Bool.false_eq_true, if_false, and_self, and_true]
-      unfold copyContentType
-      have : r.headers.contains ctName = true := by
-        have h1 := hent ctName
-        unfold entry at h1
-        by_cases hc : r.headers.contains ctName = true
-        · exact hc
-        · exfalso
-          simp only [hc, Bool.false_eq_true, if_false] at h1
-          cases hl : lastExplicit ctName c.calls with
-          | some vs => simp [hl] at h1
-          | none =>
-            simp only [hl, if_true, firstMime] at h1
-            have hf : firstBody c.calls = none := by
-              cases hfb : firstBody c.calls <;> simp [hfb] at h1 <;> rfl
-            have hlb : lastBody c.calls = none := (lastBody_none_iff _).mpr hf
-            apply hbe
-            rw [hb, hlb]; rfl
-      simp [this]
+    by_cases hcond : (r.lenKnown && !r.body.isEmpty) = true
+    · simp only [hcond, if_true, and_true]
+      simp only [Bool.and_eq_true, Bool.not_eq_true'] at hcond
+      simp [copyContentType, hct hcond.2, hcond.1]
+    · simp only [hcond, Bool.false_eq_true, if_false, and_true, true_and]
+      cases hk : r.lenKnown with
+      | false => rfl
+      | true =>
+        simp only [hk, Bool.true_and, Bool.not_eq_true', Bool.not_eq_false] at hcond
+        simp [List.isEmpty_iff.mp hcond]
   refine ⟨r.headers.flat, ?_, ?_⟩
-  · simp only [buildRequest, hr, hproto.1, hproto.2.1, hproto.2.2.1, hproto.2.2.2, hm, hu, hb]
-    simp only [expectedUrl, expectedBody]
+  · simp only [buildRequest, hr, hproto.1, hproto.2.1, hproto.2.2.1, hproto.2.2.2, hm, hu, hb, hlen]
+    simp only [expectedUrl, modelBody, expectedBody]
     congr 1
     · cases lastQuery c.calls <;> rfl
-    · cases h : lastBody c.calls with
-      | none => rfl
-      | some x => rfl
+    · cases lastBodyIsReader c.calls
+      · cases h : lastBody c.calls <;> rfl
+      · rfl
   · intro k
     rw [valuesFor_flat _ hkl, values_eq_entry, hent k]
     unfold modelValues firstMime
@@ -84,7 +104,6 @@ theorem buildRequest_closed (c : ReqCase) (hd : inDomain c.calls = true) :
       by_cases hk : k = ctName
       · simp only [hk, if_true]; cases firstBody c.calls <;> rfl
       · simp [hk]
-
 
 /-- Exactly one request effect (inside the domain); a panic only outside it. -/
 theorem one_effect (c : ReqCase) :
@@ -98,11 +117,24 @@ theorem one_effect (c : ReqCase) :
     simp [buildRequest, foldCalls_none_of_not_inDomain _ _ hd]
 
 /-- Method, URL (after the last `query`, else as parsed) and body bytes (of the last body call, else empty) are the
-    ones specified — whatever else the calls do. -/
-theorem method_url_body_exact (c : ReqCase) (hd : inDomain c.calls = true) :
+    ones specified — whatever else the calls do (bodies whose length is known in advance: every `body_*` constructor). -/
+theorem method_url_body_exact (c : ReqCase) (hd : inDomain c.calls = true)
+    (hr : lastBodyIsReader c.calls = false) :
     ∃ hs, buildRequest c = .req 1 (upper c.method) (expectedUrl c) hs (expectedBody c.calls) := by
   obtain ⟨hs, h, _⟩ := buildRequest_closed c hd
+  simp only [modelBody, hr, Bool.false_eq_true, if_false] at h
   exact ⟨hs, h⟩
+
+/-- the sent body is the specified one unless a non-empty body of unknown length is dropped -/
+theorem modelBody_eq_expected (calls : List Call) (hdr : droppedBody calls = false) :
+    modelBody calls = expectedBody calls := by
+  unfold modelBody
+  unfold droppedBody at hdr
+  cases hl : lastBodyIsReader calls with
+  | false => simp
+  | true =>
+    simp only [hl, Bool.true_and, bne_eq_false_iff_eq] at hdr
+    simp [hdr]
 
 /-- Every header, compared by lower-cased name, carries exactly `modelValues`: all values of the last
     `header(name, …)` / `content_type(…)` call naming it, in order; else the body's MIME for `content-type`. -/
@@ -154,12 +186,14 @@ theorem modelValues_eq_expected (calls : List Call) (hst : staleContentType call
     · simp [hk]
 
 /-- **C14 on the model, strongest true form**: every observation the model produces is accepted by the specification,
-    for every method, URL and list of builder calls whose content type is not stale. -/
-theorem C14_sound_partial (c : ReqCase) (hst : staleContentType c.calls = false) :
+    for every method, URL and list of builder calls whose content type is not stale and whose body is not dropped. -/
+theorem C14_sound_partial (c : ReqCase) (hst : staleContentType c.calls = false)
+    (hdr : droppedBody c.calls = false) :
     okReq c (buildRequest c) = true := by
   unfold okReq
   by_cases hd : inDomain c.calls = true
   · obtain ⟨hs, h, hv⟩ := buildRequest_closed c hd
+    rw [modelBody_eq_expected _ hdr] at h
     simp only [hd, Bool.not_true, Bool.false_eq_true, if_false, h, beq_self_eq_true, Bool.true_and]
     unfold headersOk
     rw [List.all_eq_true]
@@ -182,9 +216,10 @@ theorem C14_full_false : ¬ C14_full := by
 /-- In the defect region the model produces exactly the keyed defect: everything is as specified except that
     `content-type` carries the MIME of the first body; the oracle's key for it is `stale-content-type`. -/
 theorem stale_content_type_exact (c : ReqCase) (hd : inDomain c.calls = true)
-    (hst : staleContentType c.calls = true) :
+    (hst : staleContentType c.calls = true) (hdr : droppedBody c.calls = false) :
     okReq c (buildRequest c) = false ∧ rejectKeyReq c (buildRequest c) = "stale-content-type" := by
   obtain ⟨hs, h, hv⟩ := buildRequest_closed c hd
+  rw [modelBody_eq_expected _ hdr] at h
   -- the stale region: no explicit content type, first and last body of different documented types
   have hst' := hst
   unfold staleContentType at hst'
@@ -228,6 +263,36 @@ theorem stale_content_type_exact (c : ReqCase) (hd : inDomain c.calls = true)
       unfold modelValues expectedValues
       cases lastExplicit k c.calls <;> simp [hk]
   simp [hstale]
+
+/-- In the second defect region (`unknown-length-body-dropped`) the model sends an empty body where the specification
+    demands the reader's bytes; everything else about the request is computed as usual, and the oracle's key is this one. -/
+theorem unknown_length_body_dropped_exact (c : ReqCase) (hd : inDomain c.calls = true)
+    (hdr : droppedBody c.calls = true) :
+    (∃ hs, buildRequest c = .req 1 (upper c.method) (expectedUrl c) hs []) ∧ expectedBody c.calls ≠ [] ∧
+    okReq c (buildRequest c) = false ∧ rejectKeyReq c (buildRequest c) = "unknown-length-body-dropped" := by
+  obtain ⟨hs, h, _⟩ := buildRequest_closed c hd
+  have hdr' := hdr
+  unfold droppedBody at hdr'
+  simp only [Bool.and_eq_true, bne_iff_ne, ne_eq] at hdr'
+  obtain ⟨hrd, hne⟩ := hdr'
+  simp only [modelBody, hrd, if_true] at h
+  have hne' : ([] == expectedBody c.calls) = false := by
+    cases hb : expectedBody c.calls with
+    | nil => exact absurd hb hne
+    | cons _ _ => rfl
+  have hok : okReq c (buildRequest c) = false := by
+    rw [h]; simp [okReq, hd, hne']
+  refine ⟨⟨hs, h⟩, hne, hok, ?_⟩
+  unfold rejectKeyReq
+  rw [hok, h]
+  simp [hne, hdr]
+
+/-- … witness: `post(url).body(Body::from_reader(Cursor::new(b"hello"), None))` reaches the shell with no body. -/
+theorem C14_full_false_dropped : ¬ C14_full := by
+  intro h
+  have := h ⟨ascii "post", ascii "https://example.com/", [Call.bodyReader (ascii "hello")]⟩
+  revert this
+  decide
 
 /-! non-vacuity: concrete requests through the model and the oracle -/
 
